@@ -124,7 +124,7 @@ Lemma rec_all_items pd : c03_all_items (reconcile_crate rn cn pd) =
   map ItAlias (stable_sort (fun a => original (aid a)) (map (rc_alias cn rn (p_imports pd)) (p_aliases pd))) ++
   map ItStruct (stable_sort (fun s => original (sid s)) (map (rc_struct cn rn (p_imports pd)) (p_structs pd))) ++
   map ItEnum (stable_sort (fun e => original (eid (enum_shared e))) (map (rc_enum cn rn (p_imports pd)) (p_enums pd))) ++
-  map ItConst (stable_sort (fun c => original (cid c)) (p_consts pd)).
+  map ItConst (stable_sort (fun c => original (cid c)) (map (check_const cn rn (p_imports pd)) (p_consts pd))).
 Proof. reflexivity. Qed.
 
 Lemma rec_expected L pd :
@@ -135,15 +135,16 @@ Proof.
   - apply part_perm. intros a. apply exp_rc_alias.
   - apply part_perm. intros s. apply exp_rc_struct.
   - apply part_perm. intros e. apply exp_rc_enum.
-  - apply part_perm0.
+  - apply part_perm. intros c. reflexivity.
 Qed.
 
 Lemma rec_dom pd : dom_C03_file (reconcile_crate rn cn pd) = dom_C03_file pd.
 Proof.
   unfold dom_C03_file. rewrite rec_all_items. unfold c03_all_items. rewrite !forallb_app.
-  rewrite (part_forallb dom_C03_item ItAlias), (part_forallb dom_C03_item ItStruct), (part_forallb dom_C03_item ItEnum).
-  - f_equal. f_equal. f_equal.
-    rewrite (forallb_perm _ _ _ (Permutation_map ItConst (stable_sort_perm _ (fun c => original (cid c)) (p_consts pd)))). reflexivity.
+  rewrite (part_forallb dom_C03_item ItAlias), (part_forallb dom_C03_item ItStruct), (part_forallb dom_C03_item ItEnum),
+          (part_forallb dom_C03_item ItConst).
+  - reflexivity.
+  - reflexivity.
   - intros e. apply dom_rc_enum.
   - reflexivity.
   - reflexivity.
@@ -152,7 +153,7 @@ Qed.
 Lemma rec_known uc L pd : known_C03_file uc L (reconcile_crate rn cn pd) = known_C03_file uc L pd.
 Proof.
   destruct L; try reflexivity.
-  - cbn [known_C03_file reconcile_crate p_consts]. now rewrite is_nil_stable_sort.
+  - cbn [known_C03_file reconcile_crate p_consts]. rewrite is_nil_stable_sort. now destruct (p_consts pd).
   - cbn [known_C03_file reconcile_crate p_enums].
     rewrite (existsb_perm _ _ _ _ (stable_sort_perm _ (fun e => original (eid (enum_shared e))) (map (rc_enum cn rn (p_imports pd)) (p_enums pd)))).
     rewrite existsb_map'.
